@@ -153,6 +153,7 @@ class SIvR(SIR):
                 # infect anyway
                 self.changeCompartment(n, self.INFECTED)
                 self.markOccupied(e, t)
+                self.markHit(n, t)
 
                 # log in the infected-despite-vaccinated locus
                 self.locus(self.INFECTED_V).enterHandler(g, n)
@@ -160,6 +161,7 @@ class SIvR(SIR):
             # node is not vaccinated, infect as normal
             self.changeCompartment(n, self.INFECTED)
             self.markOccupied(e, t)
+            self.markHit(n, t)
 
             # log as infected-but-unvaccinated
             self.locus(self.INFECTED_N).enterHandler(g, n)
